@@ -203,6 +203,8 @@ class Spec:
             base, idx = self.ev(e[1], env), self.ev(e[2], env)
             if base[0] == "tup" and idx[0] == "c":
                 return base[2][idx[1]]
+            if base[0] != "rv" and idx[0] == "rv":
+                raise ValueError("a plain Python list cannot be indexed by a random value")
             return self.det(lambda b, i: b[i], [base, idx])
         if k == "attr":
             return self.det(lambda b, n=e[2]: getattr(b, n), [self.ev(e[1], env)])
